@@ -1,7 +1,7 @@
 #!/bin/bash
 # run every registered check (tier = $1, default quick) against /repo; print one line per property
 tier=${1:-quick}
-cd /verif
+cd "$(dirname "$0")"
 for p in $(/venv/bin/python -c "import json;print(' '.join(c['property_id'] for c in json.load(open('MANIFEST.json'))['checks']))"); do
   out=$(/venv/bin/python -W ignore -m mc.run $p --tier $tier 2>&1); rc=$?
   echo "$p rc=$rc $(echo "$out" | tail -1)"
